@@ -13,7 +13,8 @@ EXTENDS Paths, Json
 DirKinds == {"unset", "rel", "nested", "abs"}
 Shapes   == {"direct", "helper1", "helper3", "closure", "nontest", "nontest2", "deep40", "deep100", "subtest", "subtest2",
              "otherfile"}   \* through a helper declared in another *_test.go file of the package
-Variants == {"", "trimpath", "deep", "deep-trimpath"}
+Variants == {"", "trimpath", "deep", "deep-trimpath",
+             "envtrimpath"}   \* plain build, GOFLAGS=-trimpath in the environment of the test run
 Cwds     == {"pkg", "foreign"}
 APIs     == {"snapshot", "json", "yaml", "ssnap", "sjson"}
 
@@ -23,7 +24,7 @@ vars == <<cell, emitted>>
 Cells == {c \in [dir : DirKinds, filename : {"", "custom"}, ext : {"", ".txt"}, api : APIs, shape : Shapes,
                  variant : Variants, cwd : Cwds] :
             \* -trimpath builds are only run from the package directory (documented limitation)
-            ~(c.cwd = "foreign" /\ c.variant \in {"trimpath", "deep-trimpath"})}
+            ~(c.cwd = "foreign" /\ c.variant \in {"trimpath", "deep-trimpath", "envtrimpath"})}
 
 DirVal(k) == CASE k = "unset" -> "" [] k = "rel" -> "relsnaps" [] k = "nested" -> "nested/rel/dir" [] OTHER -> "/ABS/abs/snaps"
 CfgOf(c)  == [dir |-> DirVal(c.dir), filename |-> c.filename, ext |-> c.ext]
